@@ -139,6 +139,15 @@ def prepare(slot_dir, repo=None):
     # offline config
     os.makedirs(os.path.join(dst, ".cargo"), exist_ok=True)
     write_if_changed(os.path.join(dst, ".cargo", "config.toml"), "[net]\noffline = true\n")
+    # every distinct harness set leaves one build directory (~20 MB) behind; bound the cache
+    bdir = os.path.join(dst, "target", "kani", "x86_64-unknown-linux-gnu", "debug", "build", "h2")
+    try:
+        ents = sorted((os.path.getmtime(os.path.join(bdir, e)), e) for e in os.listdir(bdir))
+        if len(ents) > 500:
+            for _, e in ents[:len(ents) - 250]:
+                shutil.rmtree(os.path.join(bdir, e), ignore_errors=True)
+    except OSError:
+        pass
     return {"scratch": dst, "kani_dir": kdst, "additions": added, "hooked_files": hooks}
 
 
